@@ -19,8 +19,9 @@ META = {
                   "differential execution on boundary-biased inputs; Go's time package is modelled by the civil "
                   "functions in UTC.",
     "level_note": "Trusted: Lean kernel; hand-written model; harness; time.Date/Time.Add of the Go runtime are assumed "
-                  "proleptic-Gregorian and exercised on every line. Only UTC (TZ pinned); zones/DST, week-based and "
-                  "name directives, float span components are outside the model.",
+                  "proleptic-Gregorian and exercised on every line. The model is UTC only (TZ pinned): fixed-offset zones "
+                  "are covered by a model-free round-trip search (every whole-minute offset, %z and %:z), named zones/DST, "
+                  "week-based and name directives, float span components are outside the model.",
     "design_ref": "DESIGN.md §7 C22",
 }
 
@@ -588,6 +589,79 @@ def run_elk(ctx, lines):
     ctx.obligation(f"Elk programs: implementation = model on {len(reqs)} generated programs", ok, "correspondence")
 
 
+# ----------------------------------------------------------------- fixed-offset zones (model-free round trip)
+
+ZONE_MINUTES = [-1439, -720, -570, -210, -61, -60, -59, -31, -30, -29, -1, 0, 1, 29, 30, 31, 59, 60, 61, 330, 345, 525, 765, 840, 1439]
+ZONE_FORMATS = ["%Y-%m-%d %H:%M:%S.%9N %:z", "%F %T %z", "%F %T.%9N %z", "%Y-%m-%dT%H:%M:%S%:z", "%:z %F %T", "%z|%F %T"]
+# known finding C22-zone-offset-seconds: an offset that is not a whole number of minutes is printed truncated
+ZONE_FINDING_LINES = ["date\tdtz\t2023\t12\t31\t23\t45\t0\t0\t-1830\t" + "%F %T %z".encode().hex()]
+
+
+def gen_zone_line(r):
+    y, m, d = gen_date(r)
+    # years 1..9999: `%Y` outside that range does not parse back (known finding C22-year-format-parse, other stream)
+    y = y if 1 <= y <= 9999 else r.choice([1, 4, 1582, 1970, 2000, 2024, 9999, r.randint(1, 9999)])
+    d = min(d, dim(y, m))
+    f = r.choice(ZONE_FORMATS)
+    h, mi, sec, ns = gen_tod(r)
+    if "%9N" not in f:
+        ns = 0
+    off = r.choice(ZONE_MINUTES) if r.random() < 0.7 else r.randint(-1439, 1439)
+    if r.random() < 0.03:
+        off = r.choice([1440, -1440, 2000])
+    return "date\tdtz\t%d\t%d\t%d\t%d\t%d\t%d\t%d\t%d\t%s" % (y, m, d, h, mi, sec, ns, off * 60, f.encode().hex())
+
+
+def zone_oracle(line, ans):
+    """a DateTime in a fixed-offset zone: strftime output parsed with the same format is the same instant in the same zone;
+    the printed offset is sign, two-digit hours, two-digit minutes of the offset"""
+    f = line.split("\t")
+    off = int(f[9])
+    fmt = bytes.fromhex(f[10]).decode()
+    if abs(off) >= 86400:
+        return None if ans.startswith("ok zone-err") else "a zone offset of %d s was accepted: %s" % (off, ans)
+    if not ans.startswith("ok "):
+        return "formatting failed: " + ans
+    parts = ans[3:].split(" | ")
+    if len(parts) != 3:
+        return "unreadable answer " + ans
+    text = "" if parts[0] == "-" else bytes.fromhex(parts[0]).decode("utf8", "replace")
+    a = off if off >= 0 else -off
+    want = ("+" if off >= 0 else "-") + "%02d" % (a // 3600) + (":" if "%:z" in fmt else "") + "%02d" % (a % 3600 // 60)
+    if want not in text:
+        return "offset %d s printed as part of %r, expected %s" % (off, text, want)
+    if parts[2].startswith("err"):
+        return "%r (format %r) does not parse back: %s" % (text, fmt, parts[2])
+    if parts[1] != parts[2]:
+        return "%r parsed with %r gives [instant(UTC) offset] %s, the value was %s" % (text, fmt, parts[2], parts[1])
+    return None
+
+
+def run_zones(ctx):
+    lines = [gen_zone_line(ctx.rng) for _ in range(ctx.n(1500, 40000))]
+    # every whole-minute offset once (the sign/hour/minute arithmetic is per offset)
+    for o in range(-1439, 1440, 1 if not ctx.quick else 7):
+        lines.append("date\tdtz\t2023\t12\t31\t23\t45\t0\t0\t%d\t%s" % (o * 60, ctx.rng.choice(ZONE_FORMATS[:2]).replace("%9N", "%9N").encode().hex()))
+    lines += ZONE_FINDING_LINES
+    ans = vlib.run_impl(lines)
+    ok, reported = True, 0
+    for ln, a in zip(lines, ans):
+        ctx.case(ln, sample={"line": ln, "impl": a})
+        ctx.stat("op:dtz")
+        why = zone_oracle(ln, a)
+        if why is None:
+            continue
+        if reported >= 3:
+            ok = False
+            continue
+        reported += 1
+        if ctx.violation("property-fails", {"line": ln}, why + "; impl=" + a):
+            ok = False
+        else:
+            reported -= 1
+    ctx.obligation("fixed-offset zones: strftime/parse round trip and printed offset on %d datetimes" % len(lines), ok, "search")
+
+
 def run(ctx):
     ctx.rule = ("operation lines over value.Date/DateTime/spans: boundary-biased dates (year range ends, year 0, negative "
                 "years, leap days, month ends), spans around int32/int64-nanosecond limits, format strings from a "
@@ -600,7 +674,14 @@ def run(ctx):
     ctx.prove("ElkVerif.Props.C22")
     if ctx.replay:
         lines = [json.load(open(ctx.replay))["input"]["line"]]
+        if lines[0].startswith("date\tdtz\t"):
+            a = vlib.run_impl(lines)[0]
+            why = zone_oracle(lines[0], a)
+            if why is not None:
+                ctx.violation("property-fails", {"line": lines[0]}, why + "; impl=" + a)
+            return
     else:
+        run_zones(ctx)
         n = ctx.n(6000, 250000)
         lines = vlib.corpus_lines("C22") + [gen(ctx.rng) for _ in range(n)]
         # civil functions against Go's time package over a stride of the whole year range
